@@ -86,6 +86,30 @@ CHECKS['C10'] = dict(
     technique='invariant proof over small-step interleaving semantics + generated skeleton + forced-schedule correspondence',
     design='4/C10')
 
+CHECKS['C02'] = dict(
+    text='Dataflow form of the property proved in Coq (state_complete / state_only_what_is_needed): for every control statement and '
+         'every simple name bound in its bodies, live-out implies carried and among the declared outputs, live-in implies carried, '
+         'declared nonlocal/global implies carried, and nothing else is carried -- over selection formulas translated from '
+         'control_flow.py on every run. Tied by calling the real _get_block_vars on random liveness sets against the model. The '
+         'semantic form (a tracing backend computes what the original computes) is validated, not proved: a tracing-style '
+         'if/while/for backend is injected into the real pipeline and compared with the original on pure generated programs. '
+         'Liveness soundness itself is C07; composite names are validated only.',
+    note=NOTE_BASE + 'The tracing protocol is the documented one as implemented by the harness backend; programs are side-effect '
+         'free and definitely assigned.',
+    technique='Coq proof over generated selection formulas + direct correspondence with _get_block_vars + tracing-backend differential oracle',
+    design='4/C02')
+CHECKS['C12'] = dict(
+    text='Kernel-checked theorems over a model of _stack_trace_inside_mapped_code, the metadata daisy chain across any depth of '
+         'nested converted calls (induction on depth), the exception re-creation rule over if-chains and tables regenerated from '
+         'the source on every run, and create_source_map. Tied by correspondence on synthetic cases and on every real recorded '
+         'traceback and source map, with the theorem hypotheses evaluated on real runs. Partial: origin inheritance through the '
+         'passes and CPython frames/tracebacks are judged differentially by a marker oracle only; two _refuted witnesses correspond '
+         'to known findings.',
+    note=NOTE_BASE + 'The "plain type" spec is a hand list of builtins; "same type" for KeyError means the KeyError-named subclass; '
+         'lambda frames are named after the enclosing def.',
+    technique='Coq proof over generated tables + model/implementation correspondence + differential traceback/marker oracle',
+    design='4/C12')
+
 NOT_YET = {}
 
 
